@@ -361,6 +361,94 @@ func c07Check(ci any, o *core.Obs) {
 			}
 		}
 	}
+	// IsTranslation / IsRigid / IsSimilarity on matrices built by recipe (the class is known by
+	// construction; parameters keep a distance of 1e-3 from the class boundaries), and Eigen on matrices
+	// assembled from chosen eigenpairs
+	{
+		a2, t1, t2 := r.Range(-360, 360), r.Range(-50, 50), r.Range(-50, 50)
+		refl := idM
+		if r.Bool() {
+			refl = scaleM(1, -1)
+		}
+		k := r.LogRange(0.05, 20)
+		if math.Abs(k-1) < 1e-3 {
+			k = 2
+		}
+		k2 := k * core.PickF(r, []float64{1.01, 0.7, 3, -2.5})
+		sh := r.Range(0.01, 2)
+		if r.Bool() {
+			sh = -sh
+		}
+		rot := a2
+		if math.Abs(math.Mod(rot, 360)) < 0.1 || math.Abs(math.Abs(math.Mod(rot, 360))-360) < 0.1 {
+			rot = 33
+		}
+		recipes := []struct {
+			name                string
+			m                   m23
+			trans, rigid, simil bool
+		}{
+			{"translation", transM(t1, t2), true, true, true},
+			{"rotation+translation", transM(t1, t2).mul(rotM(rot)), false, true, true},
+			{"reflection", transM(t1, t2).mul(rotM(rot)).mul(scaleM(1, -1)), false, true, true},
+			{"uniform scale", transM(t1, t2).mul(rotM(a2)).mul(refl).mul(scaleM(k, k)), false, false, true},
+			{"non-uniform scale", transM(t1, t2).mul(rotM(a2)).mul(scaleM(k, k2)), false, false, false},
+			{"shear", transM(t1, t2).mul(rotM(a2)).mul(shearM(sh, 0)), false, false, false},
+		}
+		for _, rc := range recipes {
+			lm := canvas.Matrix{{rc.m[0], rc.m[1], rc.m[2]}, {rc.m[3], rc.m[4], rc.m[5]}}
+			o.Decided(3)
+			if g := lm.IsTranslation(); g != rc.trans {
+				o.Fail("matrix:IsTranslation", "IsTranslation() = %v for a %s matrix %v", g, rc.name, rc.m)
+			}
+			if g := lm.IsRigid(); g != rc.rigid {
+				o.Fail("matrix:IsRigid", "IsRigid() = %v for a %s matrix %v", g, rc.name, rc.m)
+			}
+			if g := lm.IsSimilarity(); g != rc.simil {
+				o.Fail("matrix:IsSimilarity", "IsSimilarity() = %v for a %s matrix %v", g, rc.name, rc.m)
+			}
+		}
+		// Eigen: M = P diag(l1,l2) P^-1 with unit columns p1, p2 at least 20 degrees apart
+		l1, l2 := r.Range(-5, 5), r.Range(-5, 5)
+		if math.Abs(l1-l2) < 0.1 {
+			l2 = l1 + 1
+		}
+		b1 := r.Range(0, 2*math.Pi)
+		b2 := b1 + r.Range(0.35, math.Pi-0.35)
+		if r.Chance(0.2) {
+			b1 = core.PickF(r, []float64{0, math.Pi / 2})
+		}
+		if r.Chance(0.15) {
+			b1, b2 = 0, math.Pi/2 // diagonal matrix
+		}
+		p1, p2 := Pt{math.Cos(b1), math.Sin(b1)}, Pt{math.Cos(b2), math.Sin(b2)}
+		det := p1.X*p2.Y - p2.X*p1.Y
+		// M = [p1 p2] diag(l1,l2) [p1 p2]^-1
+		e := canvas.Matrix{
+			{(l1*p1.X*p2.Y - l2*p2.X*p1.Y) / det, (-l1*p1.X*p2.X + l2*p2.X*p1.X) / det, r.Range(-9, 9)},
+			{(l1*p1.Y*p2.Y - l2*p2.Y*p1.Y) / det, (-l1*p1.Y*p2.X + l2*p2.Y*p1.X) / det, r.Range(-9, 9)},
+		}
+		var g1, g2 float64
+		var v1, v2 canvas.Point
+		if o.Call("Matrix.Eigen", func() { g1, g2, v1, v2 = e.Eigen() }) {
+			o.Decided(1)
+			etol := 1e-7 * (1 + math.Abs(l1) + math.Abs(l2)) / math.Abs(det)
+			okVals := (math.Abs(g1-l1) < etol && math.Abs(g2-l2) < etol) || (math.Abs(g1-l2) < etol && math.Abs(g2-l1) < etol)
+			if !okVals {
+				o.Fail("matrix:Eigen", "Eigen() of %v returns eigenvalues %g, %g; the matrix was assembled from %g, %g", e, g1, g2, l1, l2)
+			} else {
+				for i, gv := range []struct {
+					l float64
+					v canvas.Point
+				}{{g1, v1}, {g2, v2}} {
+					mv := Pt{e[0][0]*gv.v.X + e[0][1]*gv.v.Y, e[1][0]*gv.v.X + e[1][1]*gv.v.Y}
+					if math.Abs(math.Hypot(gv.v.X, gv.v.Y)-1) > 1e-9 || math.Hypot(mv.X-gv.l*gv.v.X, mv.Y-gv.l*gv.v.Y) > etol*10 {
+						o.Fail("matrix:Eigen", "Eigen() of %v: eigenvector %d = %v is not a unit vector with M v = %g v (M v = %v)", e, i+1, gv.v, gv.l, mv)
+					}
+				}
+			}
+		}
+	}
 	// Decompose: Translate(tx,ty).Rotate(phi).Scale(sx,sy).Rotate(theta) == M
 	dtx, dty, phi, dsx, dsy, theta := lib.Decompose()
 	rec := transM(dtx, dty).mul(rotM(phi)).mul(scaleM(dsx, dsy)).mul(rotM(theta))
